@@ -247,3 +247,117 @@ package syncer
 //@     invariant status: txnStatus >= txnStatusNo && txnStatus <= txnStatusCommit
 //@     invariant txn: inTransaction ==> (transactionMode && !needFlush && (txnStatus == txnStatusBegin || txnStatus == txnStatusIn))
 //@     invariant queue: queueClean(cmdQueue)
+
+// ---- snapshot replay workers (C04) ---------------------------------------------------------
+//   ended         1 once the worker has seen the end of its pipe (closed, Done or Err entry)
+//   replayFailed  number of Replay / SelectDB calls that returned an error (abstract count)
+
+//   ctxDone       1 once this activation has observed its context's Done channel closed
+//@ func context.Context.Err(self) (err)
+//@   trusted library contract: after Done is closed, Err returns a non-nil error
+//@   ensures done_means_err: ctxDone == 1 ==> err != nil
+
+//@ func context.Context.Done(self) (c)
+//@   trusted library contract (pure)
+
+//@ func rdbrestore.RdbReplay.Replay(self, e) (err)
+//@   trusted abstract: replayFailed counts the calls that returned an error; Replay rewrites e.Key only
+//@   modifies e.Key, replayFailed
+//@   ensures counted: (err != nil ==> replayFailed == old(replayFailed) + 1) && (err == nil ==> replayFailed == old(replayFailed))
+
+//@ func redis.SelectDB(c, db) (err)
+//@   trusted abstract: a failed database switch counts as a failed replay step
+//@   modifies replayFailed
+//@   ensures counted: (err != nil ==> replayFailed == old(replayFailed) + 1) && (err == nil ==> replayFailed == old(replayFailed))
+
+//@ func RedisOutput.NewRedisConn
+//@   trusted frame: opens a connection, modifies nothing that existed before
+//@   ensures conn_or_error: result1 == nil ==> result0 != nil
+
+//@ func client.Redis.Close(self) (err)
+//@   trusted frame: closes the connection
+
+//@ func RedisOutput.rdbSendCounterAdd
+//@   arith int
+//@   properties C04
+//@   modifies nothing
+
+//@ func RedisOutput.rdbFilterCounterAdd
+//@   arith int
+//@   properties C04
+//@   modifies nothing
+
+//@ func RedisOutput.rdbReplay
+//@   arith int
+//@   properties C04
+//@   ghost var ended mathint = 0
+//@   ghost var ctxDone mathint = 0
+//@   set ctxDone = 1 after recv ctx.Done()
+//@   ghost var replayFailed mathint
+//@   requires nonnil: ro != nil && ro.outFilter != nil && filter.filterWF(ro.outFilter)
+//@   modifies heap, ended, ctxDone, replayFailed, reqs, lastCmd, lastNArgs, lastA1, lastA2, lastA3, lastA4, lastReply
+//@   chan pipe: nonnil: recv != nil
+//@   set ended = ite(recvok && !recv.Done && recv.Err == nil, ended, 1) after recv pipe
+//@   ensures no_silent_stop: result == nil ==> ended == 1
+//@   ensures errors_propagate: result == nil ==> replayFailed == old(replayFailed)
+//@   loop 1:
+//@     invariant progress: ended == 0 && replayFailed == old(replayFailed)
+//@     invariant conn: cli != nil && replay != nil && ro.outFilter != nil && filter.filterWF(ro.outFilter)
+
+//@ func RedisOutput.rdbReplayBisync
+//@   arith int
+//@   properties C04
+//@   ghost var ended mathint = 0
+//@   ghost var ctxDone mathint = 0
+//@   set ctxDone = 1 after recv ctx.Done()
+//@   requires nonnil: ro != nil
+//@   modifies heap, ended, ctxDone, replayFailed, reqs, lastCmd, lastNArgs, lastA1, lastA2, lastA3, lastA4, lastReply
+//@   chan pipe: nonnil: recv != nil
+//@   set ended = ite(recvok && !recv.Done && recv.Err == nil, ended, 1) after recv pipe
+//@   ensures no_silent_stop: result == nil ==> ended == 1
+//@   loop 1:
+//@     invariant progress: ended == 0
+
+//@ func RedisOutput.rdbReplayBisyncGlobal
+//@   arith int
+//@   properties C04
+//@   ghost var ended mathint = 0
+//@   ghost var ctxDone mathint = 0
+//@   set ctxDone = 1 after recv ctx.Done()
+//@   requires nonnil: ro != nil
+//@   modifies heap, ended, ctxDone, replayFailed, reqs, lastCmd, lastNArgs, lastA1, lastA2, lastA3, lastA4, lastReply
+//@   chan pipe: nonnil: recv != nil
+//@   set ended = ite(recvok && !recv.Done && recv.Err == nil, ended, 1) after recv pipe
+//@   ensures no_silent_stop: err == nil ==> ended == 1
+//@   loop 1:
+//@     invariant progress: ended == 0
+
+// sendRdb: the snapshot offset is recorded (setCheckpoint) only after EVERY worker and the
+// distributor reported success.
+//   got     number of results collected from errChan,  nonNil  how many of them were errors
+//@ func RedisOutput.sendRdb
+//@   arith int
+//@   properties C04
+//@   ghost var got mathint = 0
+//@   ghost var nonNil mathint = 0
+//@   requires nonnil: ro != nil
+//@   modifies heap, got, nonNil, ended, ctxDone, replayFailed, reqs, lastCmd, lastNArgs, lastA1, lastA2, lastA3, lastA4, lastReply
+//@   set got = got + 1 after recv errChan
+//@   set nonNil = nonNil + ite(recv != nil, 1, 0) after recv errChan
+//@   assert at call setCheckpoint: all_workers_succeeded: nonNil == 0 && got == cap(errChan)
+//@   loop 3:
+//@     invariant collected: got == i#3 && i#3 <= cap(errChan) && nonNil >= 0 && (len(errs) == 0 <==> nonNil == 0) && len(errs) >= 0
+
+// distributeTask: success means the end-of-snapshot marker was seen
+//@ func RedisOutput.sendRdb$distributeTask
+//@   arith int
+//@   properties C04
+//@   ghost var ended mathint = 0
+//@   ghost var ctxDone mathint = 0
+//@   modifies heap, ended, ctxDone
+//@   chan rdbPipe: nonnil: recv != nil
+//@   set ended = ite(recvok && !recv.Done && recv.Err == nil, ended, 1) after recv rdbPipe
+//@   set ctxDone = 1 after recv ctx.Done()
+//@   ensures no_silent_stop: result == nil ==> ended == 1
+//@   loop 1:
+//@     invariant progress: ended == 0
